@@ -59,16 +59,22 @@ def build(bins, profile_env=None):
         return True, dt, ""
 
 
-def run_shard(check_id, spec, tier, seed, shard, nshards, budget):
-    work = f"{WORK}/{check_id}/s{seed}/{shard}"
+def run_shard(check_id, spec, tier, seed, shard, nshards, budget, aux=None):
+    """One worker process. `aux` (an entry of spec["aux"]) runs another
+    property's worker in a mode that judges a clause of THIS property; its
+    shard directory is named after it and only violations whose signature
+    starts with aux["keep_prefix"] are kept by the caller."""
+    tag = f"aux-{aux['bin']}-{shard}" if aux else str(shard)
+    work = f"{WORK}/{check_id}/s{seed}/{tag}"
     shutil.rmtree(work, ignore_errors=True)
     os.makedirs(work, exist_ok=True)
     out = f"{work}/report.json"
-    cmd = [f"{TARGET}/release/{spec['bin']}",
+    cmd = [f"{TARGET}/release/{aux['bin'] if aux else spec['bin']}",
            "--seed", str(seed), "--tier", tier, "--shard", str(shard),
            "--nshards", str(nshards), "--work", work, "--out", out,
            "--budget", str(budget)]
-    for k, v in spec.get("args", {}).get(tier, {}).items():
+    argsrc = aux.get("args", {}) if aux else spec.get("args", {}).get(tier, {})
+    for k, v in argsrc.items():
         cmd += [f"--{k}", str(v)]
     env = dict(os.environ)
     env.update(spec.get("env", {}))
@@ -76,7 +82,7 @@ def run_shard(check_id, spec, tier, seed, shard, nshards, budget):
     timeout = budget * spec.get("timeout_factor", 3) + 180
     t0 = time.time()
     logf = f"{work}/worker.log"
-    res = {"shard": shard, "status": "ok"}
+    res = {"shard": tag, "status": "ok", "aux": aux}
     try:
         with open(logf, "w") as lf:
             p = subprocess.run(cmd, stdout=lf, stderr=subprocess.STDOUT,
@@ -135,7 +141,8 @@ def main():
     spec = CHECKS[check_id]
     t_start = time.time()
 
-    ok, build_s, tail = build([spec["bin"]] + spec.get("extra_bins", []))
+    ok, build_s, tail = build([spec["bin"]] + spec.get("extra_bins", [])
+                              + [a["bin"] for a in spec.get("aux", [])])
     if not ok:
         log(f"INCONCLUSIVE property={check_id} harness/krill build failed "
             f"(not a verdict on the property):\n{tail}")
@@ -166,6 +173,13 @@ def main():
     with ThreadPoolExecutor(max_workers=max(par, 1)) as ex:
         futs = [ex.submit(run_shard, check_id, spec, tier, seed, i, nshards,
                           budget) for i in range(nshards)]
+        if nshards:
+            for a in spec.get("aux", []):
+                n = a.get("shards", {}).get(tier, 1)
+                for i in range(n):
+                    futs.append(ex.submit(
+                        run_shard, check_id, spec, tier, seed, i, n,
+                        int(budget * a.get("budget_frac", 1.0)), a))
         results = [f.result() for f in futs]
 
     counters = {}
@@ -206,9 +220,19 @@ def main():
         for s in rep.get("samples", []):
             if len(samples) < 5:
                 samples.append(s)
+        aux = r.get("aux")
         for v in rep.get("violations", []):
+            if aux and not v["signature"].startswith(aux["keep_prefix"]):
+                # a violation of the auxiliary worker's own property: not
+                # this check's to report (its own check does)
+                continue
             if not any(x["signature"] == v["signature"] for x in violations):
                 violations.append(v)
+        if aux:
+            # an auxiliary worker's set-up trouble is not this check's
+            counters["aux_inconclusive"] = counters.get(
+                "aux_inconclusive", 0) + len(rep.get("inconclusive", []))
+            continue
         inconclusive += [f"shard {r['shard']}: {x}"
                          for x in rep.get("inconclusive", [])]
         for k, v in rep.get("notes", {}).items():
